@@ -16,7 +16,15 @@ def rt_msg_of(k):
     return mido.Message(['clock', 'start', 'continue', 'stop', 'active_sensing', 'reset'][k % 6], time=k)
 
 
+def sx_msg_of(k):
+    """a sysex message carrying identity k"""
+    import mido
+    return mido.Message('sysex', data=(k % 128, (k // 128) % 128, 1, 2, 3))
+
+
 def ident(m):
+    if m.type == 'sysex' and len(m.data) == 5 and tuple(m.data[2:]) == (1, 2, 3):
+        return m.data[0] + 128 * m.data[1]
     if m.type in ('clock', 'start', 'continue', 'stop', 'active_sensing', 'reset'):
         return int(m.time) if isinstance(m.time, int) and m.time >= 0 else -1
     if m.type == 'note_on':
@@ -43,6 +51,12 @@ def make_dev_class():
                     raise OSError('device unplugged')
                 self.budget -= 1
             self.log.append('s%d' % ident(msg))
+
+        def close(self):
+            # transparent marker: where an effective close() begins (the harness strips it before comparing logs)
+            if not self.closed:
+                self.log.append('<')
+            return BaseIOPort.close(self)
 
         def _close(self):
             self.log.append('C')
